@@ -131,6 +131,43 @@ pub fn gen_mutated_case(t: &mut Tape) -> Value {
     json!({"source": "mutated", "groups": [[m]], "words": words, "into": [], "from": [], "base": base_rule})
 }
 
+/// words with generated romanisers / deromanisers (valid, or with 1-3 token mutations), zero or one segmental rule:
+/// the alias lexer/parser, the deromanising word reader and the romanising renderer
+pub fn gen_aliased_case(t: &mut Tape) -> Value {
+    let nw = 1 + t.weighted(&[6, 3]);
+    let mut words = vec![]; let mut segs = vec![];
+    for _ in 0..nw {
+        let wp = if t.chance(1, 3) { WordProfile::RICH } else { WordProfile::PLAIN }; let w = gen_word(t, wp).text();
+        if let Ok(Ok(pw)) = api::parse_word(&w) { segs.extend(word_segs(&pw)); }
+        words.push(w);
+    }
+    let rules: Vec<String> = if t.chance(1, 2) { let mut g = RuleGen::new(RuleProfile::SEGMENTAL, segs.clone()); vec![rule_text(&g.rule(t))] } else { vec![] };
+    let mut from = if t.chance(3, 4) { gen_romanisers(t, &segs).0 } else { vec![] };
+    let mut into = vec![];
+    if from.is_empty() || t.chance(1, 3) {
+        let (lines, table) = gen_deromanisers(t);
+        into = lines;
+        // sprinkle the fresh strings (whole, or only their first character) into the words
+        for w in words.iter_mut() { for (f, _) in &table { if t.chance(1, 2) {
+            let cs: Vec<char> = w.chars().collect(); let at = t.pick(cs.len() + 1);
+            let piece: String = if t.chance(1, 5) { f.chars().take(1).collect() } else { f.clone() };
+            *w = cs[..at].iter().collect::<String>() + &piece + &cs[at..].iter().collect::<String>();
+        } } }
+    }
+    if t.chance(1, 3) { let which = t.chance(1, 2); let v = if which && !from.is_empty() || into.is_empty() { &mut from } else { &mut into }; if !v.is_empty() { let i = t.pick(v.len()); let m = mutate(t, &v[i]); v[i] = m; } }
+    json!({"source": "aliased", "groups": [rules], "words": words, "into": into, "from": from})
+}
+
+/// the special rule shapes that other checks generate (C14's segment-only and prosody-only rules incl. `$X > &`, `X$ > &`, `$ > *`, `* > $`; C07's restating rules):
+/// those checks skip a call that does not return as "C02's business", so C02 has to see the same shapes
+pub fn gen_borrowed_case(t: &mut Tape) -> Value {
+    let wp = if t.chance(3, 10) { WordProfile::RICH } else { WordProfile::PLAIN };
+    let word = gen_word(t, wp).text();
+    let segs = match api::parse_word(&word) { Ok(Ok(pw)) => word_segs(&pw), _ => vec![] };
+    let (r, from) = match t.pick(3) { 0 => (crate::props::c14::seg_only_rule(t, segs).0, "c14-seg"), 1 => (crate::props::c14::prosody_rule(t, segs).0, "c14-prosody"), _ => (crate::props::c07::restate_rule(t, segs), "c07-restate") };
+    json!({"source": "borrowed", "groups": [[rule_text(&r)]], "words": [word], "into": [], "from": [], "base": from})
+}
+
 const NOISE: &[&str] = &["a", "e", "i", "o", "u", "p", "t", "k", "s", "n", "m", "r", "l", "h", "j", "w", "ɡ", "g", "ʔ", "?", "!", "ǃ", "ŋ", "ǀ", "q", "ɴ", "ʘ", "t͡s", "d͡ʒ", "ᵐ", "ⁿ", "ᵑ", "\u{0361}", "\u{035C}", "^",
     "ʰ", "ʷ", "ʲ", "̃", "̥", "̩", "̯", "ʼ", "ˀ", "ˤ", "ː", ":", ";", ".", "ˈ", "ˌ", "'", ",", "0", "1", "2", "5", "9", "51", "12345", " ", "\t",
     "[", "]", "{", "}", "(", ")", "<", ">", "⟨", "⟩", ":{", "}:", "=", "=>", "->", "/", "//", "|", "_", "__", "#", "$", "%", "*", "∅", "&", "+", "-", "...", "..", "…", "⋯", ";;", "\\", "@", "@{acute}", "\\u{41}",
@@ -197,7 +234,8 @@ impl Property for C02 {
          (all four rule types, sets, optionals, ellipses, structures, variables, alphas, env sets, condensed rules), elements word-directed so most rules fire; \
          (2) token-level mutations (delete/duplicate/swap/replace/insert, 1-3 of them) of valid rules taken from the repository's tests/examples or the structured generator; \
          (3) character noise over every character either lexer treats specially, IPA bases, diacritics, digits, letters, escapes and a few astral/combining characters, \
-         in the rule, word or alias position. Non-trivial: structured = the list parsed and changed at least one word; mutated/noise = the call got beyond the first character \
+         in the rule, word or alias position; (4) aliased — generated words with generated romanisers (single elements and 2-3 element sequences with modifiers, groups and matrices that follow the word's segments across syllable ends, `+`/`*` outputs) \
+         and/or deromanisers (fresh strings, whole or cut short, sprinkled into the words), valid or token-mutated, with zero or one segmental rule; (5) borrowed — the special rule shapes of C14 (segment-only, prosody-only incl. `$X > &`, `X$ > &`, `$ > *`, `* > $`) and C07 (restating rules), because those checks skip calls that do not return. Non-trivial: structured = the list parsed and changed at least one word; mutated/noise = the call got beyond the first character \
          (Ok that changed a word, or an Err other than UnknownCharacter/UnknownChar). Distinct = hash of (rules, words, aliases).".into()
     }
     fn assumptions(&self) -> Vec<String> { vec!["loops without a tick (bounded copy loops) cannot hang; a 25-minute driver watchdog backs this up and yields exit 2, never a violation".into(),
@@ -209,6 +247,8 @@ impl Property for C02 {
         run_tape_batches(self, ctx, "structured", n1, 400, &|t| Some(gen_structured_case(t, RuleProfile::FULL)));
         run_tape_batches(self, ctx, "mutated", n2, 300, &|t| Some(gen_mutated_case(t)));
         run_tape_batches(self, ctx, "noise", n3, 120, &|t| Some(gen_noise_case(t)));
+        run_tape_batches(self, ctx, "aliased", n3, 300, &|t| Some(gen_aliased_case(t)));
+        run_tape_batches(self, ctx, "borrowed", n3, 400, &|t| Some(gen_borrowed_case(t)));
         STATS.with(|s| { let s = s.borrow(); ctx.max_extra("max_ticks_ok", s.0);
             let mut v = s.1.clone(); v.sort(); if !v.is_empty() { ctx.max_extra("max_permille_of_budget_p999", v[(v.len() * 999 / 1000).min(v.len() - 1)]); ctx.max_extra("max_permille_of_budget", *v.last().unwrap()); } });
     }
